@@ -40,6 +40,9 @@ import tempfile
 
 ENTRY = "entry-instance"
 METHODS = ["ref", "output"]
+# methods of a reference that only lives in a parameter (never interpolated into command.arguments): the idiom for
+# staging a producer's file into the working directory
+STAGE_METHODS = ["copy", "link", "copy", "ref", "output"]
 STEP_POOL = ["a", "b", "c", "gen", "sim", "foo", "foo-I", "foo-II", "x.y", "p_q", "foo-III",
              # explicit `stage<N>.` prefixes: other spellings of names above (stage 0) and the same names in another stage
              "stage0.foo", "stage00.foo-I", "stage0.a", "stage1.a", "stage1.foo", "stage2.gen"]
@@ -47,7 +50,10 @@ REPLICATE_VALUES = [1, 2, 3, 2, 0]
 REPLICA = "replica"
 WORDS = ["alpha", "beta", "7", "x=1", "run", "-v", "n_2", "k.9", "zz"]
 NUMBERS = [0, 5, 42, 2.5, -1.5, True, False]
-DICTS = [{"OMP_NUM_THREADS": "4"}, {"MODE": "fast", "LEVEL": "2"}, {"A": "1"}, {"MODE": "slow"}]
+# environments: several with the SAME variable names and other values, subsets / supersets of each other
+DICTS = [{"OMP_NUM_THREADS": "4"}, {"MODE": "fast", "LEVEL": "2"}, {"A": "1"}, {"MODE": "slow"},
+         {"OMP_NUM_THREADS": "8"}, {"MODE": "accurate", "LEVEL": "2"}, {"MODE": "fast", "LEVEL": "3"}, {"A": "2"},
+         {"MODE": "fast"}, {"A": "1", "MODE": "slow"}, {"LEVEL": "fast", "MODE": "2"}]
 
 
 class Hang(Exception):
@@ -212,11 +218,11 @@ def _observe(f):
         args = cmd.get("arguments", "")
         if not isinstance(args, str):
             args = "non-string:" + repr(args)
-        env = cmd.get("environment")
+        env = envname = cmd.get("environment")
         if env is not None and env != "none":
             env = canon(envs[env]) if env in envs else "unknown-environment:" + str(env)
         comps.append({"stage": int(c.get("stage", 0)), "name": c["name"], "args": args,
-                      "refs": sorted(c.get("references", [])), "env": env})
+                      "refs": sorted(c.get("references", [])), "env": env, "envname": envname})
     try:
         val = [type(x).__name__ + ": " + str(x)[:200] for x in f.validate()]
     except Hang:
@@ -430,6 +436,23 @@ def expected(ns, errors=None):
                 cands = [p for p in paths if x[1][:len(p)] == p]
                 prods.append(cands[0] if len(cands) == 1 else None)
         i["producers"] = prods
+        # the complete output references in the values of the component's parameters (whether or not the parameter
+        # is interpolated into the arguments): the component consumes them too
+        prefs, pprods = [], []
+        for val in i["penv"].values():
+            for x in val:
+                if x[0] == "r" and x[2] is not None:
+                    cands = [p for p in paths if x[1][:len(p)] == p]
+                    prefs.append(x)
+                    pprods.append(cands[0] if len(cands) == 1 else None)
+        i["param_refs"] = prefs
+        i["param_producers"] = pprods
+        # a partial reference (no :method) is only legal when the arguments complete it: as a parameter value that no
+        # reference of the arguments completes, or left partial inside the arguments, it is a mistake of the instance
+        completed = [x[1] for x in i["toks"] if x[0] == "r" and x[2] is not None]
+        dangling = [x for val in i["penv"].values() for x in val if x[0] == "r" and x[2] is None and x[1] not in completed]
+        if dangling or any(x[0] == "r" and x[2] is None for x in i["toks"]):
+            errors.append(i["site"] or ["components", i["tidx"], None])
     # replication: a component is replicated when it asks for it, or when it does not aggregate and consumes (through
     # the output references in its parameter values) a replicated component
     by_path = {i["path"]: i for i in insts}
@@ -509,7 +532,7 @@ def oracle_valid(ns, out):
             return ("parameter-reference-left", c)
         if "<" in c["args"] or ">" in c["args"]:
             return ("output-reference-left", c)
-    if any(None in e["producers"] for e in exp):
+    if any(None in e["producers"] or None in e["param_producers"] for e in exp):
         return None  # generator produced a dangling reference on purpose: handled by the invalid oracle
     # bijection between expected instances and produced components
     cands = []
@@ -523,6 +546,11 @@ def oracle_valid(ns, out):
             m = rg.fullmatch(c["args"])
             if m and c.get("env") == _want_env(e):
                 cs.append((k, m.groupdict()))
+        if not cs and any(c["stage"] == stage and (c["name"] == base or c["name"].startswith(base + "-"))
+                          and rg.fullmatch(c["args"]) for c in comps):
+            return ("component-not-bound-to-the-environment-of-its-call-chain",
+                    {"instance": list(e["path"]), "expected_environment": _want_env(e),
+                     "components_with_the_bound_arguments": [c for c in comps if rg.fullmatch(c["args"])]})
         if not cs:
             return ("no-component-with-the-bound-arguments", {"instance": list(e["path"]), "expected_tokens": e["toks"],
                                                               "expected_environment": _want_env(e),
@@ -543,12 +571,41 @@ def oracle_valid(ns, out):
                     return False
         return True
 
+    def refs_mismatch():
+        """references list = the references of the arguments + the complete references in the values of the parameters
+        (a reference that is only handed over as a parameter, e.g. `<producer>/file:copy`, is consumed as well)"""
+        for i, (k, groups) in assign.items():
+            want = set()
+            for x, prod in zip(exp[i]["param_refs"], exp[i]["param_producers"]):
+                pc = comps[assign[path_index[prod]][0]]
+                rest = x[1][len(prod):]
+                want.add("stage%d.%s%s:%s" % (pc["stage"], pc["name"], "/" + "/".join(rest) if rest else "", x[2]))
+            n = 0
+            for x in exp[i]["toks"]:
+                if x[0] == "r":
+                    prod = exp[i]["producers"][n]
+                    rest = x[1][len(prod):]
+                    want.add("stage%d.%s%s:%s" % (int(groups["s%d" % n]), groups["r%d" % n],
+                                                  "/" + "/".join(rest) if rest else "", x[2]))
+                    n += 1
+            if set(comps[k]["refs"]) != want:
+                return {"instance": list(exp[i]["path"]), "component": comps[k], "expected": sorted(want)}
+        return None
+
+    with_refs = [False]
+    first_mismatch = []
+
     def search(pos):
         budget[0] -= 1
         if budget[0] < 0:
             return None
         if pos == len(order):
-            return True
+            if not with_refs[0]:
+                return True
+            bad = refs_mismatch()
+            if bad and not first_mismatch:
+                first_mismatch.append(bad)
+            return not bad
         i = order[pos]
         for k, groups in cands[i]:
             if k in used:
@@ -570,19 +627,16 @@ def oracle_valid(ns, out):
         return ("dataflow-or-bindings-differ", {"expected": [{"path": list(e["path"]), "toks": e["toks"],
                                                               "producers": [list(p) for p in e["producers"]]} for e in exp],
                                                 "components": comps})
-    # references list = the references of the arguments (the generator uses every reference parameter)
-    for i, (k, groups) in assign.items():
-        want = set()
-        n = 0
-        for x in exp[i]["toks"]:
-            if x[0] == "r":
-                prod = exp[i]["producers"][n]
-                rest = x[1][len(prod):]
-                want.add("stage%d.%s%s:%s" % (int(groups["s%d" % n]), groups["r%d" % n],
-                                              "/" + "/".join(rest) if rest else "", x[2]))
-                n += 1
-        if set(comps[k]["refs"]) != want:
-            return ("references-differ-from-output-references", {"component": comps[k], "expected": sorted(want)})
+    # some consistent assignment must also explain the references lists (instances of one template whose arguments
+    # have the same text differ only in the references they received as parameters)
+    assign.clear()
+    used.clear()
+    with_refs[0] = True
+    r = search(0)
+    if r is None:
+        return None
+    if not r:
+        return ("references-differ-from-output-references", first_mismatch[0])
     if out["validate"]:
         return ("flowir-validator-rejects-result", out["validate"])
     return None
@@ -596,7 +650,7 @@ def oracle_invalid(ns, fault, out):
         return ("invalid-namespace-accepted", {"fault": fault, "components": out["components"]})
     locs = [trunc_loc(l) for l in out["invalid"]]
     accept = [fault["loc"]] if fault.get("loc") else []
-    if fault["kind"] in VALUE_FAULTS + REPLICA_FAULTS:
+    if fault["kind"] in VALUE_FAULTS + REPLICA_FAULTS + REF_FAULTS:
         # a non-string value in the wrong place is a mistake of the field(s) that misuse it; `%(replica)s` outside a
         # replicated component / a parameter called replica inside one is a mistake of the component
         errs = []
@@ -608,7 +662,7 @@ def oracle_invalid(ns, fault, out):
     if fault["kind"] in ("unknown-nested-step-in-reference", "reference-to-workflow-step"):
         # a broken reference that travels through parameters surfaces where a component consumes it
         try:
-            accept += [e["site"] for e in expected(ns) if None in e["producers"]]
+            accept += [e["site"] for e in expected(ns) if None in e["producers"] or None in e["param_producers"]]
         except (KeyError, RecursionError):
             pass
     if not any(a in locs for a in accept):
@@ -623,6 +677,7 @@ REPLICA_FAULTS = ("replica-reference-in-a-component-that-is-not-replicated",
                   "replicated-component-declares-a-parameter-called-replica",
                   "replication-switched-off-upstream-of-a-replica-reference",
                   "aggregation-inserted-upstream-of-a-replica-reference")
+REF_FAULTS = ("partial-reference-never-completed",)
 CONF_ONLY_FAULTS = ("list-valued-argument", "unknown-user-variable", "parameter-reference-in-user-variable")
 
 # ----------------------------------------------------------------------------------------
@@ -672,13 +727,17 @@ def gen_component(rng, name, idx, tagged):
         params.append({"name": "env", "kind": "dict",
                        "default": [dictionary(rng)] if rng.random() < 0.3 else None})
     for i in range(rng.randint(0, 3)):
-        kind = rng.choice(["lit", "lit", "ref", "pref"])
-        pn = "%s%d" % ({"lit": "v", "ref": "in", "pref": "src"}[kind], i)
+        kind = rng.choice(["lit", "lit", "ref", "pref", "cref"])
+        pn = "%s%d" % ({"lit": "v", "ref": "in", "pref": "src", "cref": "staged"}[kind], i)
         default = None
         if kind == "lit" and rng.random() < 0.5:
             default = lit_default(rng)
         params.append({"name": pn, "default": default, "kind": kind})
-        if kind == "pref":
+        if kind == "cref":
+            # a complete reference that is NOT interpolated into the arguments: the component still consumes it
+            if rng.random() < 0.5:
+                args += [{"l": rng.choice(["out.txt", "f.csv", "molecule.inp"])}, lit(rng)]
+        elif kind == "pref":
             args += [{"p": pn}, {"s": [], "m": rng.choice(METHODS)}, lit(rng)]
         else:
             args += [{"p": pn}, lit(rng)]
@@ -690,7 +749,7 @@ def gen_component(rng, name, idx, tagged):
     r = rng.random()
     if r < 0.3:
         replicate = rng.choice(REPLICATE_VALUES)
-    elif r < 0.45 and any(p["kind"] in ("ref", "pref") for p in params):
+    elif r < 0.45 and any(p["kind"] in ("ref", "pref", "cref") for p in params):
         aggregate = True
     return {"name": name, "wf": False, "idx": idx, "params": params, "args": args, "env": env,
             "replicate": replicate, "aggregate": aggregate}
@@ -815,7 +874,9 @@ def gen_workflow(rng, name, idx, pool, by_name, tagged, must_use=None, root=Fals
             choices = []
             if sources:
                 choices += ["sibling"] * 3
-            if kind == "ref" and own_ref:
+            complete = kind in ("ref", "cref")
+            methods = METHODS if kind == "ref" else STAGE_METHODS
+            if complete and own_ref:
                 choices.append("fwd")
             if own_pref:
                 choices += ["fwd-partial"] * 2
@@ -825,8 +886,8 @@ def gen_workflow(rng, name, idx, pool, by_name, tagged, must_use=None, root=Fals
             path = rng.choice([[], [], ["out.txt"], ["d", "f.csv"]])
             if ch == "sibling":
                 src = rng.choice(sources)
-                if kind == "ref":
-                    v = [spelled(rng, src + path, rng.choice(METHODS), True)]
+                if complete:
+                    v = [spelled(rng, src + path, rng.choice(methods), True)]
                 else:
                     v = [spelled(rng, src, None, True)]
                     v[0]["k"] = len(src) if not isinstance(v[0]["k"], str) else v[0]["k"][0] + str(len(src))
@@ -834,15 +895,15 @@ def gen_workflow(rng, name, idx, pool, by_name, tagged, must_use=None, root=Fals
                 v = [{"p": rng.choice(own_ref)["name"]}]
             elif ch == "fwd-partial":
                 q = rng.choice(own_pref)["name"]
-                if kind == "ref":
-                    v = [{"p": q}, {"s": path, "m": rng.choice(METHODS)}]
+                if complete:
+                    v = [{"p": q}, {"s": path, "m": rng.choice(methods)}]
                 else:
                     v = [{"p": q}]
             else:
                 v = None
             if v is None:
                 # no producer available: the callee cannot be given a reference; give it a literal file instead
-                v = [{"l": "file.txt"}] if kind == "ref" else None
+                v = [{"l": "file.txt"}] if complete else None
                 if v is None:
                     return None
             args.append([p["name"], v])
@@ -976,7 +1037,7 @@ def mutate(rng, ns, kind=None):
     """-> (mutated namespace, fault) or None.  fault = {kind, loc (truncated location that must be listed, or None
     when the offending fields are those found by the independent evaluation)}"""
     r = _mutate(rng, ns, kind)
-    if r is not None and r[1]["kind"] in VALUE_FAULTS + REPLICA_FAULTS:
+    if r is not None and r[1]["kind"] in VALUE_FAULTS + REPLICA_FAULTS + REF_FAULTS:
         errs = []
         try:
             expected(strip_kinds(r[0]), errs)
@@ -992,7 +1053,7 @@ def _mutate(rng, ns, kind=None):
     wfs = [t for t in ns["templates"] if t["wf"]]
     comps = [t for t in ns["templates"] if not t["wf"]]
     by_name = {t["name"]: t for t in ns["templates"]}
-    kinds = list(STRUCTURAL_FAULTS) + list(VALUE_FAULTS) * 2 + list(REPLICA_FAULTS) * 2
+    kinds = list(STRUCTURAL_FAULTS) + list(VALUE_FAULTS) * 2 + list(REPLICA_FAULTS) * 2 + list(REF_FAULTS) * 2
     if ns.get("path") == "conf":
         kinds += list(CONF_ONLY_FAULTS) * 4
     kind = kind or rng.choice(kinds)
@@ -1001,7 +1062,7 @@ def _mutate(rng, ns, kind=None):
     if not wfs and kind not in ("unknown-parameter-in-component", "unknown-entry-template", "missing-entry-argument",
                                 "unknown-entry-argument", "dictionary-embedded-in-component-arguments",
                                 "unknown-parameter-as-environment", "unknown-user-variable",
-                                "parameter-reference-in-user-variable") + REPLICA_FAULTS:
+                                "parameter-reference-in-user-variable") + REPLICA_FAULTS + REF_FAULTS:
         return None
     root = by_name[ns["entry"]]
     if kind in REPLICA_FAULTS:
@@ -1036,10 +1097,23 @@ def _mutate(rng, ns, kind=None):
             c["replicate"] = rng.choice([None, 0])
         else:
             cands = [c for c in comps if not c.get("aggregate") and c.get("replicate") in (None, 0)
-                     and any(p.get("kind") in ("ref", "pref") for p in c["params"])]
+                     and any(p.get("kind") in ("ref", "pref", "cref") for p in c["params"])]
             if not cands or not uses:
                 return None
             rng.choice(cands)["aggregate"] = True
+        return ns, {"kind": kind, "loc": None}
+    if kind in REF_FAULTS:
+        # the component no longer completes the partial reference it receives: the `:method` suffix (or the whole use
+        # of the parameter) disappears from command.arguments
+        cands = [(c, k) for c in comps for k, t in enumerate(c["args"][:-1])
+                 if "p" in t and "s" in c["args"][k + 1] and any(p["name"] == t["p"] and p.get("kind") == "pref" for p in c["params"])]
+        if not cands:
+            return None
+        c, k = rng.choice(cands)
+        if rng.random() < 0.5:
+            c["args"] = c["args"][:k] + c["args"][k + 2:]
+        else:
+            c["args"] = c["args"][:k + 1] + c["args"][k + 2:]
         return ns, {"kind": kind, "loc": None}
     if kind == "unknown-user-variable":
         ns.setdefault("userVars", []).append(["nosuch", [{"l": "x"}]])
@@ -1439,6 +1513,13 @@ def features(ns):
     if any(t.get("env") for t in ns["templates"] if not t["wf"]):
         tags.append("environment-from-parameter")
     comps = [t for t in ns["templates"] if not t["wf"]]
+    dicts = [t["v"] for t in every if "v" in t and isinstance(t["v"], dict)]
+    if any(a != b and sorted(a) == sorted(b) for a in dicts for b in dicts):
+        tags.append("environments-with-the-same-names-and-other-values")
+    if any("staged" in p["name"] for t in comps for p in t["params"]):
+        tags.append("reference-parameter-not-interpolated-into-arguments")
+    if any("r" in tok and tok.get("m") in ("copy", "link") for tok in toks):
+        tags.append("reference-method-copy-or-link")
     if any(t.get("replicate") not in (None, 0) for t in comps):
         tags.append("replicate")
     if any(t.get("replicate") == 0 for t in comps):
@@ -1684,7 +1765,7 @@ def check_cases(ctx, cases, again=None):
             if why and fault["kind"] in ("unknown-nested-step-in-reference", "reference-to-workflow-step"):
                 # the broken reference sits in an argument that no component ever receives: nothing to reject
                 try:
-                    if not any(None in e["producers"] for e in expected(ns)):
+                    if not any(None in e["producers"] or None in e["param_producers"] for e in expected(ns)):
                         ctx.tag("fault-not-observable(reference never reaches a component)")
                         why = None
                 except (KeyError, RecursionError):
@@ -1708,6 +1789,14 @@ def check_cases(ctx, cases, again=None):
         if m is not None and not known_family:
             ctx.compare("namespace_to_flowir == Dsl.flattenOp (components, arguments, references | error locations)",
                         case, model_view(m), impl_view(out))
+            if "ok" in m and "components" in out and m.get("envnames") is not None:
+                # the `environments` section: which components share an entry env<k> (Dsl.bindAll with the canonical
+                # text of the dictionary as its hash, names handed out in component order)
+                ctx.compare("names of the environments == Dsl.envNames", case,
+                            sorted([c["stage"], c["name"], None if k is None else "env%d" % k]
+                                   for c, k in zip(m["ok"], m["envnames"])),
+                            sorted([c["stage"], c["name"], c["envname"] if c["envname"] not in (None, "none") else None]
+                                   for c in out["components"]))
             if m.get("replicas"):
                 # model-internal: the answers of can_template_replicate with the memo dictionaries threaded through the
                 # components (as the code calls it) are those of the memo-free definition that flattenOp uses
@@ -1719,14 +1808,16 @@ def check_cases(ctx, cases, again=None):
                 ctx.compare("Dsl.isReplica == oracle replication", case,
                             sorted((c["loc"], bool(c["replica"])) for c in m["ok"]),
                             sorted((list(e["path"]), bool(e["replica"])) for e in exp))
-                want = sorted((list(e["path"]), [list(p) for p in sorted(set(filter(None, e["producers"])))]) for e in exp)
+                want = sorted((list(e["path"]), [list(p) for p in sorted(set(filter(None, e["producers"] + e["param_producers"])))])
+                              for e in exp)
                 got = sorted((c["loc"], sorted(c["producers"])) for c in m["ok"])
                 want = [list(x) for x in want]
                 got = [list(x) for x in got]
                 ctx.compare("Dsl.flattenOp producers == oracle producers", case, got, want)
                 ctx.compare("Dsl.specEdges == oracle edges", case,
                             [list(map(list, x)) for x in sorted(set((tuple(a), tuple(b)) for a, b in m["edges"]))],
-                            [list(map(list, x)) for x in sorted(set((tuple(e["path"]), tuple(p)) for e in exp for p in e["producers"] if p))])
+                            [list(map(list, x)) for x in sorted(set((tuple(e["path"]), tuple(p)) for e in exp
+                                                                    for p in e["producers"] + e["param_producers"] if p))])
 
 
 def run(ctx):
@@ -1737,7 +1828,12 @@ def run(ctx):
                 "references to earlier siblings or into their nested workflows with 4 spellings; parameter values are "
                 "text, numbers / booleans (argument, default, forwarded as the whole value, embedded in a string) or "
                 "dictionaries (forwarded as the whole value down to a component that uses the parameter as its "
-                "command.environment; the literal none); plus a stream of single-fault mutations (14 structural kinds + "
+                "command.environment; the literal none; the pool of dictionaries holds several with the SAME variable "
+                "names and other values, so that instances of one template differ only in the values of their "
+                "environment — the `environments` section and the name env<k> of every component are compared with "
+                "Dsl.envNames); component templates also take complete references (methods copy / link / ref / output) "
+                "in parameters that are NOT interpolated into command.arguments (staging idiom): the references list "
+                "and the producer/consumer relation must contain them; plus a stream of single-fault mutations (14 structural kinds + "
                 "5 kinds that put a non-string value in the wrong place: dictionary embedded in a longer string of an "
                 "execute argument / of command.arguments, dictionary given for a text parameter, text or number given as "
                 "environment, environment naming an unknown parameter).  Second driver path (conf): a sample of the "
@@ -1749,7 +1845,7 @@ def run(ctx):
                 "spellings of a name, the same name in another stage).  Component templates may ask for replication "
                 "(workflowAttributes.replicate 1-3, or 0) or aggregate; `%(replica)s` is used in command.arguments "
                 "where every instance is replicated, an ordinary parameter called replica where none is; 4 more fault "
-                "kinds (replica reference in a component that is not replicated, replicated component declaring a "
+                "kinds (+ partial reference that the arguments never complete) (replica reference in a component that is not replicated, replicated component declaring a "
                 "parameter called replica, replication switched off / aggregation inserted upstream of a replica "
                 "reference).  Histories: all cases run in one process (locations entry-instance/<step> collide across "
                 "cases with other roles); a sample (every case with replicate / aggregate / replica first) is compiled "
@@ -1799,7 +1895,7 @@ def run(ctx):
                     break
 
     invalid_stream(valid, 680 if quick else 5000,
-                   list(STRUCTURAL_FAULTS) + list(VALUE_FAULTS) * 2 + list(REPLICA_FAULTS) * 2, "mut:")
+                   list(STRUCTURAL_FAULTS) + list(VALUE_FAULTS) * 2 + list(REPLICA_FAULTS) * 2 + list(REF_FAULTS) * 2, "mut:")
     # second driver path: package + user variable files through the configuration factory
     n_conf = 260 if quick else 2000
     conf_valid = []
@@ -1808,7 +1904,8 @@ def run(ctx):
         conf_valid.append(ns)
         cases.append(("valid", "conf:%d-files" % len(ns["varFiles"]), ns, None))
     invalid_stream(conf_valid, 160 if quick else 1200,
-                   list(CONF_ONLY_FAULTS) * 3 + list(VALUE_FAULTS) * 2 + list(STRUCTURAL_FAULTS) + list(REPLICA_FAULTS),
+                   list(CONF_ONLY_FAULTS) * 3 + list(VALUE_FAULTS) * 2 + list(STRUCTURAL_FAULTS) + list(REPLICA_FAULTS)
+                   + list(REF_FAULTS),
                    "conf-mut:")
     # roman numerals pin
     rm = ctx.model([{"op": "roman", "n": n} for n in range(1, 60)])
